@@ -76,12 +76,26 @@ enum {
     SVT_VERIF_EV_SHUTDOWN, /* a=resource */
     SVT_VERIF_EV_SRM_INVARIANT, /* a=queue, b=objects queued, c=processes queued (violation) */
     SVT_VERIF_EV_REL_ENABLE, /* a=resource, b=wrapper, c=enable */
+    SVT_VERIF_EV_POOL_RETURN, /* 15: a=resource, b=wrapper, c=live_count after the decrement: emitted in the
+                                 branch of svt_release_object that really pushes the wrapper back to the pool */
+    SVT_VERIF_EV_REGISTER, /* 16: a=queue, b=fifo, c=process_queue entries after the push, d=capacity: emitted by
+                              svt_release_process under the queue lock (a process registers for the next object) */
     SVT_VERIF_EV_SEG_INIT = 32, /* a=segments ptr, b=col_count, c=row_count, d=pic w sb | h sb<<16 */
     SVT_VERIF_EV_SEG_START, /* a=segments ptr, b=segment index, c=picture number, d=tile group */
     SVT_VERIF_EV_SEG_SB, /* a=segments ptr, b=segment index, c=sb x | y<<16, d=picture number */
     SVT_VERIF_EV_SEG_DONE, /* a=segments ptr, b=segment index, c=picture number */
     SVT_VERIF_EV_HB_RELEASE = 48, /* H6 decoder hand-off published: a=flag address */
     SVT_VERIF_EV_USER = 64,
+    /* H4 field meanings as emitted (they supersede the short notes above):
+     * SEG_INIT  a=segments ptr, b=requested col_count | row_count<<16 (arguments before clamping),
+     *           c=width in SBs | height in SBs<<16, d=segment_max_row_count | segment_max_band_count<<16;
+     *           emitted at the end of enc_dec_segments_init
+     * SEG_START a=segments ptr, b=segment index, c=picture number, d=tile group index
+     * SEG_SB    a=segments ptr, b=segment index,
+     *           c=x | y<<16 (SB position inside the tile group) | abs x<<32 | abs y<<48 (position in the picture),
+     *           d=picture number
+     * SEG_DONE  a=segments ptr, b=segment index, c=picture number, d=tile group index; emitted after the last SB
+     *           of the segment, before assign_enc_dec_segments is called again */
 };
 
 #define SVT_VERIF_SCHED(site) svt_verif_sched_point(site)
